@@ -23,6 +23,8 @@ def parseOp (j : Json) : Except String Op := do
   | "newInst" => return .newInst (← getNat j "c") (← kwPairs (← j.getObjVal? "kw"))
   | "instSet" => return .instSet (← getNat j "i") (← getStr j "n") (← getInt j "v")
   | "instParam" => return .instParam (← getNat j "i") (← getStr j "n")
+  | "instBlock" => return .instBlock (← getNat j "i")
+  | "clsSetParam" => return (.clsSetParam (← getNat j "c") (← getStr j "n") (← getInt j "d") ((getOpt j "hi").bind optInt))
   | o => throw s!"unknown op {o}"
 
 def resName : Res → String
@@ -32,6 +34,7 @@ def resName : Res → String
 def opName : Op → String
   | .read .. => "read" | .clsSet .. => "clsSet" | .addParam .. => "addParam"
   | .newInst .. => "newInst" | .instSet .. => "instSet" | .instParam .. => "instParam"
+  | .instBlock .. => "instBlock" | .clsSetParam .. => "clsSetParam"
 
 /-- which branch of the model the step took (coverage table) -/
 def branchOf (s : St) (op : Op) (r : Res) : String :=
@@ -45,6 +48,10 @@ def branchOf (s : St) (op : Op) (r : Res) : String :=
           if (descriptor s c n).isSome then ":override-inherited" else ":new") ++
         (if hi.isSome then ":own-bounds" else "")
     | .newInst _ kw => if kw.isEmpty then "" else ":kwargs"
+    | .instBlock i => match s.insts[i]? with
+        | some x => if (s.classes[x.cls]?.map (·.cache)).getD [] == [] then ":fill" else ":cached"
+        | none => ""
+    | .clsSetParam c _ _ _ => if (s.classes[c]?.map (·.cache)).getD [] == [] then ":unread" else ":cache-read"
     | .instSet i n _ => match s.insts[i]? with
         | some x => if (aget x.iparams n).isSome then ":has-copy" else ":makes-copy"
         | none => ""
